@@ -200,6 +200,10 @@ def validate_lowering(job, unit, workdir, seed, iters=20000):
         hg = RP.HarnessGen(lw, fn, job['specs'][fn], ghosts, K=max(6, int(job.get('harness_K', 6)) if job.get('sweep') else 6), fixed=fx)
         hg.always_both = True
         hg.native_skip_ensures = True
+        hg.native_skip_bv_requires = False
+        if job.get('native_skip_ensures') and any('bv_t' in r or 'dw_t' in r for r in job['specs'][fn].get('requires', [])):
+            out['note'] = 'preconditions need a bit-vector wider than any native type: inputs cannot be drawn under the contract'
+            return out
         htext = hg.build()
         stubs = ''
         stub_fns = []
